@@ -25,7 +25,7 @@ class Task:
         self.kw = kw
 
     def key(self):
-        return f'{self.kind}:{self.name}:{self.kw.get("self_class") or ""}'
+        return f'{self.kind}:{self.name}:{self.kw.get("self_class") or ""}' + (f':{self.kw["shape"]}' if self.kw.get('shape') else '')
 
 
 def Fn(qualname, classes=None, safety_tag='aux', **kw):
@@ -102,7 +102,7 @@ def run_task(spec):
             from pyvc.verify import verify_function, QUICK_TIMEOUT_MS, THOROUGH_TIMEOUT_MS
             res = verify_function(name, self_class=kw.get('self_class'),
                                   timeout_ms=THOROUGH_TIMEOUT_MS if tier == 'thorough' else QUICK_TIMEOUT_MS,
-                                  safety_tag=kw.get('safety_tag', 'aux'))
+                                  safety_tag=kw.get('safety_tag', 'aux'), shape=kw.get('shape'))
             out.update(status=res.status, message=res.message, paths=res.paths, source_sha=res.source_sha,
                        contracts_used=res.contracts_used, specs_used=res.specs_used,
                        uninterpreted=res.uninterpreted, writes=[list(w) for w in res.writes],
@@ -242,6 +242,9 @@ def load_known_findings():
 def finding_matches(f, pid, ob=None, witness=None):
     if f.get('property') != pid or f.get('status') != 'open':
         return False
+    if ob is not None and f.get('obligation_regex'):
+        import re
+        return re.fullmatch(f['obligation_regex'], ob['name']) is not None
     if ob is not None and f.get('obligation'):
         if f['obligation'] != ob['name']:
             return False
